@@ -139,6 +139,11 @@ def fmt_case(d):
     return d["type"] + " " + " ".join("%s=%s" % (k, v) for k, v in d.items() if k != "type")
 
 
+def alt_ttl(t):
+    """another legal ttl value"""
+    return 15 if t == 8 else 16 - t
+
+
 def ttl_list(s):
     return [] if s == "-" else [int(x) for x in s.split(",")]
 
@@ -213,7 +218,7 @@ class Runner:
         nreq, nrep, rawreq, rawrep, rounds = int(c["nreq"]), int(c["nrep"]), int(c["rawreq"]), int(c["rawrep"]), int(c["rounds"])
         n = len(ttls)
         self.nops += 1
-        l = self.impl.ask("ichain %s %s %d %d %d %d %d %d" % (fam, c["ttls"], tr, nreq, nrep, rawreq, rawrep, rounds), 180)
+        l = self.impl.ask("ichain %s %s %d %d %d %d %d %d %d" % (fam, c["ttls"], tr, nreq, nrep, rawreq, rawrep, rounds, int(c.get("late", "0"))), 180)
         m = re.match(r"ichain rv=(-?\d+)( NOT-QUIESCENT)? sent=(\d+) delivered=(\d+) hdrmin=(\d+) hdrmax=(\d+) hdrbad=(\d+) replies=(\d+) noreply=(\d+) wrong=(\d+) late=(\d+) extra=(\d+) hops=(\S+)$", l)
         if not m:
             raise Failure("harness", "unparsable ichain result %r" % l)
@@ -291,11 +296,12 @@ class Runner:
                 if o["rv"] != 0:
                     raise Failure("harness", "open failed %d" % o["rv"])
             if fam != "bus":
-                o = self.do("setopt s%d ttl-max int %d" % (2 * i, ttls[i]))
+                # first another value: the one that counts is set after the peers are connected (below)
+                o = self.do("setopt s%d ttl-max int %d" % (2 * i, alt_ttl(ttls[i])))
                 if o["rv"] != 0:
-                    raise Failure("spec" if 1 <= ttls[i] <= MAXTTL else "harness", "ttl-max %d refused: rv=%d" % (ttls[i], o["rv"]))
+                    raise Failure("harness", "ttl-max %d refused: rv=%d" % (alt_ttl(ttls[i]), o["rv"]))
                 if fam == "pair1":
-                    self.do("setopt s%d ttl-max int %d" % (2 * i + 1, ttls[i]))
+                    self.do("setopt s%d ttl-max int %d" % (2 * i + 1, alt_ttl(ttls[i])))
         pid = {}
         in_pipe = {}
 
@@ -318,6 +324,12 @@ class Runner:
                 in_pipe[nxt] = a
                 self.do("link p%d p%d" % (b, a))
         info["in_pipe"] = in_pipe
+        if fam != "bus":
+            for i in range(n):
+                for sck in ([2 * i, 2 * i + 1] if fam == "pair1" else [2 * i]):
+                    o = self.do("setopt s%d ttl-max int %d" % (sck, ttls[i]))
+                    if o["rv"] != 0:
+                        raise Failure("spec" if 1 <= ttls[i] <= MAXTTL else "harness", "ttl-max %d refused after connecting: rv=%d" % (ttls[i], o["rv"]))
         info["pid"] = pid
         for i in range(n):
             o = self.do("device d%d s%d s%d" % (i, 2 * i, 2 * i + 1))
@@ -327,7 +339,7 @@ class Runner:
 
     # ------------------------------------------------------------------ tap: per-hop conformance
     def run_tap(self, c, rng):
-        fam, ttls, nq, pre, msgs = c["fam"], ttl_list(c["ttls"]), int(c["nq"]), int(c["pre"]), int(c["msgs"])
+        fam, ttls, nq, pre0, msgs = c["fam"], ttl_list(c["ttls"]), int(c["nq"]), int(c["pre"]), int(c["msgs"])
         n = len(ttls)
         self.fresh()
         info = self.build_chain(fam, ttls, nq)
@@ -337,6 +349,9 @@ class Runner:
         for k in range(msgs):
             q = info["q"][k % len(info["q"])]
             in_pipe[0] = q
+            # every second message is a plain one: after a message that was discarded on the way, traffic on the
+            # same connections must still get through
+            pre = pre0 if k % 2 == 0 else 0
             body = "%02x%02x%02x" % (0xb0 + (k & 15), rng.randrange(256), k & 255)
             if fam == "pair1":
                 hop0 = rng.choice([1, 1, 1, 0, 2, max(ttls), max(ttls) + 1]) if pre else 1
@@ -438,60 +453,86 @@ class Runner:
 
     # ------------------------------------------------------------------ inj: crafted wire from a raw peer
     def run_inj(self, c):
-        kind, ttl, wire = c["kind"], int(c["ttl"]), ("" if c["wire"] == "-" else c["wire"])
+        """steps: (ttl, wire) ... on ONE connection (a new one only after a disconnect).  For plain sockets the ttl
+        is (re)set before every message -- after the peer connected --; a device's sockets get theirs after the
+        peers connected and before the device starts (a device owns its sockets: NNG_EBUSY afterwards)."""
+        kind = c["kind"]
+        steps = [(int(c["ttl"]), c["wire"])]
+        if c.get("more"):
+            for x in c["more"].split(";"):
+                t, w = x.split(":")
+                steps.append((int(t), w))
         self.fresh()
         dev = kind.startswith("dev")
-        qtok = wire.startswith("Q")      # Q = the id of the requester's pipe at the device (known only at run time)
+        st = {"kind": kind, "dev": dev}
         if dev:
             fam = kind.split("-")[1]
-            info = self.build_chain(fam, [ttl], 1)
+            info = self.build_chain(fam, [steps[0][0]], 1)
             front = kind.startswith("devfront")
-            p = info["q"][0] if front else info["back_pipe"][0]
-            other = info["back_pipe"][0] if front else info["q"][0]
-            ppid = info["pid"][p]
-            if qtok:
-                wire = info["pid"][other] + wire[1:]
-            mk = {"reqrep": ("xrep", "xreq"), "survey": ("xresp", "xsurv"), "pair1": ("pair1", "pair1")}[fam][0 if front else 1]
+            st.update(fam=fam, front=front, info=info, p=info["q"][0] if front else info["back_pipe"][0],
+                      other=info["back_pipe"][0] if front else info["q"][0])
+            st["ppid"] = info["pid"][st["p"]]
+            st["opid"] = info["pid"][st["other"]]
+            st["mk"] = {"reqrep": ("xrep", "xreq"), "survey": ("xresp", "xsurv"), "pair1": ("pair1", "pair1")}[fam][0 if front else 1]
         else:
             proto = {"rep": "rep0", "xrep": "rep0_raw", "resp": "respondent0", "xresp": "respondent0_raw", "xreq": "req0_raw",
                      "xsurv": "surveyor0_raw", "pair1": "pair1", "pair1raw": "pair1_raw"}[kind]
-            mk = "pair1" if kind == "pair1raw" else kind
-            if qtok:
-                wire = wire[1:]
+            st["mk"] = "pair1" if kind == "pair1raw" else kind
+            st["proto"] = proto
             self.do("open s0 %s" % proto)
-            o = self.do("setopt s0 ttl-max int %d" % ttl)
+            o = self.do("setopt s0 ttl-max int %d" % alt_ttl(steps[0][0]))
             if o["rv"] != 0:
-                raise Failure("spec", "ttl-max %d refused rv=%d" % (ttl, o["rv"]))
+                raise Failure("harness", "ttl-max refused rv=%d" % o["rv"])
             o = self.do("conn s0 %d" % PEER_OF[proto])
-            p, ppid = o["pipe"], o["pid"]
+            st["p"], st["ppid"] = o["pipe"], o["pid"]
+        for si, (ttl, wire) in enumerate(steps):
+            if dev:
+                ttl = steps[0][0]
+            else:
+                o = self.do("setopt s0 ttl-max int %d" % ttl)
+                if o["rv"] != 0:
+                    raise Failure("spec", "ttl-max %d refused on a connected socket rv=%d" % (ttl, o["rv"]))
+            res = self.inj_one(st, ttl, wire, si)
+            if res == "close":
+                if dev:
+                    break
+                o = self.do("conn s0 %d" % PEER_OF[st["proto"]])
+                if o["rv"] != 0 or o["pipe"] is None:
+                    raise Failure("harness", "reconnect failed")
+                st["p"], st["ppid"] = o["pipe"], o["pid"]
+
+    def inj_one(self, st, ttl, wire, si):
+        kind, dev, mk, p, ppid = st["kind"], st["dev"], st["mk"], st["p"], st["ppid"]
+        qtok = wire.startswith("Q")      # Q = the id of the requester's pipe at the device (known only at run time)
+        if qtok:
+            wire = (st["opid"] if dev else "") + wire[1:]
+        wire = "" if wire == "-" else wire
         a = self.ask("recv %s %s %d %s" % (mk, ppid, ttl, hx(wire)))
         o = self.do("inject p%d %s" % (p, hx(wire)))
         if o["rv"] != 0:
             raise Failure("harness", "inject refused")
         if dev:
+            fam, front, other = st["fam"], st["front"], st["other"]
             o = self.do("pump 10")
             tx = o["pipes"][other]["tx"]
             closed = o["pipes"][p]["st"] != "o"
             if tx is not None:
                 h, b = tx.split("/")
                 seen = "send " + hx(("" if h == "-" else h) + ("" if b == "-" else b))
+                self.do("sent p%d" % other)
             else:
                 seen = "close" if closed else "nothing"
-            if front:
+            if front or fam == "pair1":
                 m = self.ask("pfwd %d %s" % (ttl, hx(wire))) if fam == "pair1" else self.ask("fwd %s %s %d %s" % (fam, ppid, ttl, hx(wire)))
                 want = {"drop": "nothing"}.get(m, m)
             else:
-                if fam == "pair1":
-                    m = self.ask("pfwd %d %s" % (ttl, hx(wire)))
-                    want = {"drop": "nothing"}.get(m, m)
+                m = self.ask("back %s %s" % (fam, hx(wire)))
+                if m.startswith("send"):
+                    f = m.split()
+                    # routed to the pipe named by the first word -- only our requester pipe exists
+                    want = "send " + f[2] if f[1] == st["opid"] else "nothing"
                 else:
-                    m = self.ask("back %s %s" % (fam, hx(wire)))
-                    if m.startswith("send"):
-                        f = m.split()
-                        # routed to the pipe named by the first word -- only our requester pipe exists
-                        want = "send " + f[2] if f[1] == info["pid"][other] else "nothing"
-                    else:
-                        want = "close" if a == "close" else "nothing"
+                    want = "close" if a == "close" else "nothing"
             got = seen
             res_impl = "close" if closed else ("deliver" if tx is not None else "drop")
         else:
@@ -506,6 +547,7 @@ class Runner:
                     if s["rv"] != 0 or tx is None:
                         raise Failure("spec", "the reply to a delivered request was not sent (rv=%d)" % s["rv"])
                     got = "deliver %s %s" % (tx.split("/")[0], r["got"].split("/")[1])
+                    self.do("sent p%d" % p)
                 res_impl = "deliver"
             elif r["rv"] == 8:
                 got = "close" if closed else "drop"
@@ -515,16 +557,26 @@ class Runner:
             want = a
         # ---- oracle in the property's words
         words = split_bt(wire)
+        nw = len(words[0]) // 8 if words else None
         nonraw_front = mk in ("xrep", "rep", "xresp", "resp")
+        if mk == "pair1":
+            must = len(wire) >= 8 and int(wire[:8], 16) <= ttl
+        elif nonraw_front:
+            must = words is not None and nw <= ttl
+        else:
+            must = words is not None and nw <= 16
+            if dev:
+                must = must and nw >= 2 and wire[:8] == st["opid"]
+        where = "message %d on the connection" % (si + 1)
         if res_impl == "deliver":
             if mk == "pair1":
                 if len(wire) < 8 or int(wire[:8], 16) > ttl:
                     raise Failure("spec", "pair1 (ttl %d) admitted hop header %s" % (ttl, wire[:8]))
             elif words is None:
                 raise Failure("spec", "a backtrace without a terminating id was admitted: %s" % wire)
-            elif nonraw_front and len(words[0]) // 8 > ttl:
-                raise Failure("spec", "a message that crossed %d hops was admitted by a socket with ttl %d" % (len(words[0]) // 8, ttl))
-            elif len(words[0]) // 8 + (1 if mk in ("xrep", "xresp") else 0) > 16:
+            elif nonraw_front and nw > ttl:
+                raise Failure("spec", "a message that crossed %d hops was admitted by a socket whose ttl is %d (%s)" % (nw, ttl, where))
+            elif nw + (1 if mk in ("xrep", "xresp") else 0) > 16:
                 raise Failure("spec", "a backtrace longer than the header capacity was admitted")
             if not dev:
                 f = got.split()
@@ -538,13 +590,16 @@ class Runner:
                             raise Failure("spec", "cooked receive must save the backtrace %s and deliver the body %s: got %s / %s" % (words[0], words[1], hh, bb))
                     elif hh + bb != pre + wire:
                         raise Failure("spec", "the bytes delivered (%s / %s) are not the bytes received (%s)" % (hh, bb, wire))
+        elif must:
+            raise Failure("spec", "%s (ttl %d in force): a well-formed message within the hop limit was %s instead of delivered%s: %s"
+                          % (where, ttl, "answered with a disconnect" if res_impl == "close" else "discarded",
+                             " -- an earlier discarded message must not take the connection's later traffic with it" if si else "", hx(wire)))
         if got != want:
-            ok_spec = True
-            # a well-formed, in-limit message that is not delivered contradicts the property as well
-            if res_impl != "deliver" and mk != "pair1" and words is not None and a.startswith("deliver"):
-                ok_spec = False
-            raise Failure("model" if ok_spec else "spec", "%s ttl=%d wire=%s: implementation %r, model %r" % (kind, ttl, hx(wire), got, want))
+            raise Failure("model", "%s ttl=%d wire=%s (%s): implementation %r, model %r" % (kind, ttl, hx(wire), where, got, want))
         self.bump("inj_%s_%s" % (kind.split("-")[0], res_impl))
+        if si:
+            self.bump("inj_followup_%s" % res_impl)
+        return res_impl
 
     # ------------------------------------------------------------------ loops
     def run_loop(self, c):
@@ -571,6 +626,14 @@ class Runner:
             raise Failure("spec", "forwarding loop did not die out within the bound: %d forwards (bound %d, ttls %s, watchdog rv=%d)" % (count, bound, ttls, o["rv"]))
         if count != mf or alive != 0:
             raise Failure("model", "loop of %s devices ttls=%s: %d forwards, model %d (alive %d)" % (kind, ttls, count, mf, alive))
+        # the ring is quiet again: the same message once more must travel exactly as far (a discarded message
+        # does not silence the connection it came in on)
+        self.do("inject p%d %s" % (entry, wire))
+        o = self.do("pump %d" % mx, timeout=120)
+        if o["rv"] != 0 or o["count"] > bound:
+            raise Failure("spec", "second message in the ring: %d forwards (bound %d, watchdog rv=%d)" % (o["count"], bound, o["rv"]))
+        if o["count"] != mf:
+            raise Failure("spec" if o["count"] < mf else "model", "second message in the ring made %d forwards, the first one %d (ttls %s)" % (o["count"], mf, ttls))
         return None
 
     def run_busrefl(self, c):
@@ -680,7 +743,8 @@ def gen_ichain(rng, tier):
                 cases.append({"type": "ichain", "fam": f, "ttls": ",".join(map(str, ttls)) or "-", "tr": str(tr),
                               "nreq": str(rng.choice([2, 3, 4]) if f != "pair1" else rng.choice([MAXTTL, n + 1 if 1 <= n + 1 <= MAXTTL else 8, 8])),
                               "nrep": str(rng.choice([1, 1, 2]) if f == "survey" else 1),
-                              "rawreq": str(rng.randrange(2)), "rawrep": str(rng.randrange(2)), "rounds": str(2 if tier == "quick" else 3)})
+                              "rawreq": str(rng.randrange(2)), "rawrep": str(rng.randrange(2)), "rounds": str(2 if tier == "quick" else 3),
+                              "late": str(rng.randrange(2))})
     return cases
 
 
@@ -693,7 +757,7 @@ def gen_tap(rng, count):
         ttls = ttl_vectors(rng, n, focus)
         pre = rng.choice([0, 0, 0, 1, 2, rng.randrange(0, 16)])
         cases.append({"type": "tap", "fam": fam, "ttls": ",".join(map(str, ttls)), "nq": str(rng.choice([1, 2, 3])), "pre": str(pre),
-                      "msgs": str(rng.choice([1, 2, 3]))})
+                      "msgs": str(rng.choice([2, 3, 4]))})
     return cases
 
 
@@ -705,6 +769,33 @@ def rand_wire(rng, words, term, tail):
         w += w32(0x80000000 | rng.randrange(0, 1 << 31))
     w += "".join("%02x" % rng.randrange(256) for _ in range(tail))
     return w or "-"
+
+
+def good_wire(rng, kind, words=0):
+    """a well-formed message for this receiver with `words` hop entries before the id"""
+    if "pair1" in kind:
+        return w32(words + 1) + "%02x%02x" % (0xe0, rng.randrange(256))
+    w = "".join(w32(rng.randrange(1, 1 << 31)) for _ in range(words)) + w32(0x80000000 | rng.randrange(1, 1 << 31)) + "%02x%02x" % (0xe0, rng.randrange(256))
+    return ("Q" + w) if kind.startswith("devback") else w
+
+
+def with_followups(rng, c):
+    """after the crafted message: a well-formed one that must get through, then (often) a message that is over the
+    limit of a NEW ttl value, and a well-formed one again -- the ttl changes between the messages"""
+    kind = c["kind"]
+    more = [(rng.randrange(1, 16), good_wire(rng, kind))]
+    r = rng.random()
+    if r < 0.6:
+        t2 = rng.randrange(1, 15)
+        over = good_wire(rng, kind, t2 + rng.choice([0, 0, 1]))       # t2 + 1 or t2 + 2 words: over t2
+        if "pair1" in kind:
+            over = w32(t2 + rng.choice([1, 2])) + "e1"
+        more.append((t2, over))
+        t3 = rng.randrange(1, 16)
+        k = rng.randrange(0, t3)
+        more.append((t3, good_wire(rng, kind, k if k + 1 <= t3 else 0)))
+    c["more"] = ";".join("%d:%s" % (t, w) for t, w in more)
+    return c
 
 
 INJ_KINDS = ["rep", "xrep", "resp", "xresp", "xreq", "xsurv", "pair1", "pair1raw",
@@ -739,7 +830,7 @@ def gen_inj(rng, tier):
             for term in (0, 1):
                 cases.append({"type": "inj", "kind": kind, "ttl": str(rng.randrange(1, 16)),
                               "wire": "Q" + rand_wire(rng, words, term, rng.choice([0, 2, 4, 6])).replace("-", "")})
-    nrand = 1200 if tier == "quick" else 300000
+    nrand = 1200 if tier == "quick" else 170000
     for _ in range(nrand):
         kind = rng.choice(INJ_KINDS)
         ttl = rng.randrange(1, 16)
@@ -755,7 +846,7 @@ def gen_inj(rng, tier):
         if kind.startswith("devback") and kind != "devback-pair1" and rng.random() < 0.5:
             wire = "Q" + wire.replace("-", "")
         cases.append({"type": "inj", "kind": kind, "ttl": str(ttl), "wire": wire})
-    return cases
+    return [with_followups(rng, c) for c in cases]
 
 
 def gen_loops(rng, tier):
@@ -880,6 +971,12 @@ def run(tier, seed, replay=None):
         "(0..20 hop words, with / without terminating id, id in the middle, tails of 0..9 bytes, random bytes; all pair1 hop classes) into REP, raw REP, "
         "RESPONDENT, raw RESPONDENT, raw REQ, raw SURVEYOR, PAIR1, raw PAIR1 and into both sides of a running device: Deliver / Drop / Close and the "
         "header seen; loop: rings of 1..7 REAL devices with a watchdog, forwards counted against the bound of ttl_kills_loops and the model's count; "
+        "Every inj case continues on the SAME connection: after the crafted message a well-formed one that must be delivered (and, for cooked sockets, "
+        "answered), then a message over a NEW ttl value and a well-formed one again (a discarded message must not silence its connection); "
+        "NNG_OPT_MAXTTL is first set to another value and gets the value that counts only AFTER the peers are connected (plain sockets: again "
+        "before every message; device sockets, which a running device owns: after wiring, before the device starts; ichain: late=1) -- the ttl "
+        "in force when the message is received decides; tap alternates discarded and plain messages on the same connections; every ring gets its "
+        "message twice.  "
         "BUS rings (no hop limit exists) are run to the watchdog and recorded, a BUS reflector must not echo.  Real-time effects: none is used -- REQ "
         "resend and survey expiry are disabled / set to an hour, nothing waits on a clock.  non-trivial = distinct abstract cases.")
     rep.cov["not_covered"] = ("device teardown / error paths of device_cb (model: Route/RouteModel.device_cb, proved, not driven), best-effort drops "
